@@ -215,6 +215,20 @@ MUST_FIRE += [
     ("m75", ["C13"], ["A2"], multi(rep1(S + "mub_circuits.py", "    mub_info = circuit_lookup.mub_circuit_lookup(num_qubits, connectivity)\n    info = {}", "    if num_qubits in _info_memo:\n        return dict(_info_memo[num_qubits])\n    mub_info = circuit_lookup.mub_circuit_lookup(num_qubits, connectivity)\n    info = {}"),
                                          rep1(S + "mub_circuits.py", "    info[\"average two-qubit count\"] = mub_info.total_cost / info[\"num circuits\"]\n    return info", "    info[\"average two-qubit count\"] = mub_info.total_cost / info[\"num circuits\"]\n    _info_memo[num_qubits] = info\n    return dict(info)"),
                                          rep1(S + "mub_circuits.py", "def get_mub_info(", "_info_memo = {}\n\n\ndef get_mub_info(")), "memo keyed without the connectivity"),
+    ("m76", ["C13"], ["A2"], multi(rep1(S + "stabilizer_circuits.py", "    lc_class_id = lc_classes.determine_lc_class(stabilizer).id()\n", "    key = (stabilizer.num_qubits, stabilizer.R.tobytes(), stabilizer.S.tobytes())\n    cached_circuit = _circuit_cache.get(key)\n    if cached_circuit is not None:\n        return cached_circuit.copy()\n    lc_class_id = lc_classes.determine_lc_class(stabilizer).id()\n"),
+                                         rep1(S + "stabilizer_circuits.py", "    return single_qubit_gate_canceller.run(circuit) # type: ignore\n", "    circuit = single_qubit_gate_canceller.run(circuit) # type: ignore\n    _circuit_cache[key] = circuit\n    return circuit.copy()\n"),
+                                         rep1(S + "stabilizer_circuits.py", "def _get_preparation_circuit_modulo_phase(", "_circuit_cache = {}\n\n\ndef _get_preparation_circuit_modulo_phase(")), "circuit cache keyed without the connectivity (dict.get idiom)"),
+    ("m77", ["C09"], ["W8"], multi(rep1(S + "circuit_lookup.py", "        header = lines[0]\n        info = header.split(\":\")\n        assert len(info) == 3, \"Invalid MUB file\"\n        self.total_cost = int(info[0])\n        self.max_cost = int(info[1])\n        self.max_depth = int(info[2])\n", "        header = MUBHeader.parse(lines[0])\n        self.total_cost = header.total_cost\n        self.max_cost = header.max_cost\n        self.max_depth = header.max_depth\n"),
+                                         rep1(S + "circuit_lookup.py", "class MUBInfo:", "class MUBHeader(NamedTuple):\n    total_cost: int\n    max_depth: int\n    max_cost: int\n\n    @classmethod\n    def parse(cls, line: str) -> \"MUBHeader\":\n        fields = line.split(\":\")\n        assert len(fields) == len(cls._fields), \"Invalid MUB file\"\n        return cls(*(int(field) for field in fields))\n\n\nclass MUBInfo:"),
+                                         rep1(S + "circuit_lookup.py", "from typing import List\n", "from typing import List, NamedTuple\n")), "header parsed into a NamedTuple whose field order differs from the file format"),
+    ("m78", ["C04", "C07"], ["P6"], multi(rep1(S + "stabilizer_circuits.py", "    lc_class_id = lc_classes.determine_lc_class(stabilizer).id()\n", "    lc_class_id = lc_classes.determine_lc_class(stabilizer).id()\n    if lc_class_id == 1:\n        return _product_circuit(stabilizer)\n"),
+                                         rep1(S + "stabilizer_circuits.py", "def _get_preparation_circuit_modulo_phase(", "def _product_circuit(stabilizer):\n    qc = QuantumCircuit(stabilizer.num_qubits)\n    for q in range(stabilizer.num_qubits):\n        if stabilizer.R[q, q]:\n            qc.h(q)\n    return qc\n\n\ndef _get_preparation_circuit_modulo_phase(")), "table bypassed for a class whose cost is not 0"),
+    ("m79", ["C13"], ["A1"], multi(rep1(S + "graph.py", "    @staticmethod\n    def decompress(num_vertices: int, id: int) -> \"Graph\":", "    @staticmethod\n    @functools.lru_cache(maxsize=None)\n    def decompress(num_vertices: int, id: int) -> \"Graph\":"), rep1(S + "graph.py", "import numpy as np\n", "import numpy as np\nimport functools\n")), "public factory memoised: callers share one mutable graph"),
+    ("m80", ["C13"], ["A1"], multi(rep1(S + "stabilizer.py", "            self.R = np.zeros((self.num_qubits, self.num_qubits), dtype=np.int8)\n            self.S = np.zeros((self.num_qubits, self.num_qubits), dtype=np.int8)\n", "            self.R, self.S = _zero_blocks(self.num_qubits)\n"),
+                                         rep1(S + "stabilizer.py", "class Stabilizer:", "@functools.lru_cache(maxsize=None)\ndef _zero_blocks(n):\n    return np.zeros((n, n), dtype=np.int8), np.zeros((n, n), dtype=np.int8)\n\n\nclass Stabilizer:"),
+                                         rep1(S + "stabilizer.py", "import numpy as np\n", "import numpy as np\nimport functools\n")), "memoised arrays stored in the object without a copy"),
+    ("m81", ["C19"], ["K12"], rep1(S + "graph.py", "        result = self.copy()\n        result.local_complementation(vertex)\n        return result", "        nb = self.adjacency_matrix[vertex]\n        return Graph(self.adjacency_matrix ^ np.outer(nb, nb))"), "copying local complementation without clearing the diagonal"),
+    ("m82", ["C11"], ["W1"], rep1(S + "tomography.py", "        self.qubits = measured_qubits\n", "        self.qubits = tuple(sorted(measured_qubits)) if measured_qubits is not None else None\n"), "fitter stores the measured qubits sorted"),
     ("m72", ["C13"], ["A3"], rep1(S + "circuit_lookup.py", "result.circuits = [circuit.copy() for circuit in self.circuits]", "result.circuits = list(self.circuits)"), "fresh list of the cached circuits"),
 ]
 
@@ -237,6 +251,15 @@ MUST_STAY_SILENT = [
     ("s17", ["C13", "C09"], multi(rep1(S + "mub_circuits.py", "    mub_info = circuit_lookup.mub_circuit_lookup(num_qubits, connectivity)\n    info = {}", "    if (num_qubits, connectivity) in _info_memo:\n        return dict(_info_memo[(num_qubits, connectivity)])\n    mub_info = circuit_lookup.mub_circuit_lookup(num_qubits, connectivity)\n    info = {}"),
                                          rep1(S + "mub_circuits.py", "    info[\"average two-qubit count\"] = mub_info.total_cost / info[\"num circuits\"]\n    return info", "    info[\"average two-qubit count\"] = mub_info.total_cost / info[\"num circuits\"]\n    _info_memo[(num_qubits, connectivity)] = info\n    return dict(info)"),
                                          rep1(S + "mub_circuits.py", "def get_mub_info(", "_info_memo = {}\n\n\ndef get_mub_info(")), False, "correct memo: complete key, copies on both paths"),
+    ("s18", ["C13", "C02", "C04"], multi(rep1(S + "stabilizer_circuits.py", "    lc_class_id = lc_classes.determine_lc_class(stabilizer).id()\n", "    key = (stabilizer.num_qubits, connectivity, stabilizer.R.tobytes(), stabilizer.S.tobytes())\n    cached_circuit = _circuit_cache.get(key)\n    if cached_circuit is not None:\n        return cached_circuit.copy()\n    lc_class_id = lc_classes.determine_lc_class(stabilizer).id()\n"),
+                                         rep1(S + "stabilizer_circuits.py", "    return single_qubit_gate_canceller.run(circuit) # type: ignore\n", "    circuit = single_qubit_gate_canceller.run(circuit) # type: ignore\n    _circuit_cache[key] = circuit\n    return circuit.copy()\n"),
+                                         rep1(S + "stabilizer_circuits.py", "def _get_preparation_circuit_modulo_phase(", "_circuit_cache = {}\n\n\ndef _get_preparation_circuit_modulo_phase(")), False, "correct circuit cache: complete key, copies on both paths"),
+    ("s19", ["C09", "C13"], multi(rep1(S + "circuit_lookup.py", "        header = lines[0]\n        info = header.split(\":\")\n        assert len(info) == 3, \"Invalid MUB file\"\n        self.total_cost = int(info[0])\n        self.max_cost = int(info[1])\n        self.max_depth = int(info[2])\n", "        header = MUBHeader.parse(lines[0])\n        self.total_cost = header.total_cost\n        self.max_cost = header.max_cost\n        self.max_depth = header.max_depth\n"),
+                                         rep1(S + "circuit_lookup.py", "class MUBInfo:", "class MUBHeader(NamedTuple):\n    total_cost: int\n    max_cost: int\n    max_depth: int\n\n    @classmethod\n    def parse(cls, line: str) -> \"MUBHeader\":\n        fields = line.split(\":\")\n        assert len(fields) == len(cls._fields), \"Invalid MUB file\"\n        return cls(*(int(field) for field in fields))\n\n\nclass MUBInfo:"),
+                                         rep1(S + "circuit_lookup.py", "from typing import List\n", "from typing import List, NamedTuple\n")), False, "header parsed into a correctly ordered NamedTuple"),
+    ("s20", ["C04", "C07", "C02"], multi(rep1(S + "stabilizer_circuits.py", "    lc_class_id = lc_classes.determine_lc_class(stabilizer).id()\n", "    lc_class_id = lc_classes.determine_lc_class(stabilizer).id()\n    if lc_class_id == 0:\n        return _product_circuit(stabilizer)\n"),
+                                         rep1(S + "stabilizer_circuits.py", "def _get_preparation_circuit_modulo_phase(", "def _product_circuit(stabilizer):\n    qc = QuantumCircuit(stabilizer.num_qubits)\n    for q in range(stabilizer.num_qubits):\n        if stabilizer.R[q, q]:\n            qc.h(q)\n    return qc\n\n\ndef _get_preparation_circuit_modulo_phase(")), False, "class-0 fast path: cost and connectivity unaffected (state correctness is not C04/C02)"),
+    ("s21", ["C13"], multi(rep1(S + "lc_classes.py", "def index_of_first_set_bit(bitstring: int):", "@functools.lru_cache(maxsize=None)\ndef index_of_first_set_bit(bitstring: int) -> int:"), rep1(S + "lc_classes.py", "import itertools\n", "import itertools\nimport functools\n")), False, "memoised pure function returning an int"),
     ("s16", ["C09", "C13", "C02"], rep1(S + "mub_circuits.py", "return circuit_lookup.mub_circuit_lookup(num_qubits, connectivity).circuits", "return [c for c in circuit_lookup.mub_circuit_lookup(num_qubits, connectivity).circuits]"), False, "identity comprehension"),
     ("s15", ["C13"], rep1(S + "graph.py", "    def copy(self):\n        result = Graph(self.num_vertices)", "    def copy(self):\n        # fresh object\n        result = Graph(self.num_vertices)"), False, "comment"),
 ]
